@@ -258,4 +258,19 @@ pub fn run(run: &Run) {
             }
         });
     }
+    // hostile lexical terms (any string in any field, foreign vocabulary) under every folder:
+    // whenever one folds at all, the category must still agree
+    let hostile = crate::hostile::terms(false);
+    run.count("hostile_lexical_terms", hostile.len() as u64);
+    run.add_distinct(hostile.len() as u64);
+    for f in fmts::all() {
+        hostile.par_iter().for_each(|x| {
+            run.eval(1);
+            let res = quiet_catch(AssertUnwindSafe(|| case_lex(&f, x)));
+            let res = match res { Ok(x) => x, Err(p) => Err(format!("panic: {p}")) };
+            if let Err(msg) = res {
+                run.violation(&format!("[{}] {}", f.name, msg), json!({"op": "lexical_components", "format": f.name, "term": crate::props::c02::lterm_to_json(x)}), &[]);
+            }
+        });
+    }
 }
